@@ -6,7 +6,6 @@ import (
 	_ "verif/harness/checks/c02"
 	_ "verif/harness/checks/c03"
 	_ "verif/harness/checks/c04"
-	_ "verif/harness/checks/c08"
 	_ "verif/harness/checks/c09"
 	_ "verif/harness/checks/c10"
 )
